@@ -96,7 +96,12 @@ func vCheckCandidates(src, tgt string) (string, int) {
 		if s < 0 || s > e || e > len(tgt) {
 			return fmt.Sprintf("candidate %d converts to byte range [%d,%d) of a target of %d bytes: %v", ci, s, e, len(tgt), mr), len(mrs)
 		}
-		_ = tgt[s:e]
+		// the range delimits real text: it begins with the first token of the candidate
+		// and ends with its last one
+		ft, lt := ts.Tokens[mr[0].TargetStart], ts.Tokens[mr[len(mr)-1].TargetEnd-1]
+		if s != ft.Offset || e != lt.Offset+len(lt.Text) {
+			return fmt.Sprintf("candidate %d converts to byte range [%d,%d) = %q, but its first token %q starts at %d and its last token %q ends at %d", ci, s, e, tgt[s:e], ft.Text, ft.Offset, lt.Text, lt.Offset+len(lt.Text)), len(mrs)
+		}
 	}
 	return "", len(mrs)
 }
@@ -190,7 +195,7 @@ func TestVerifC17(t *testing.T) {
 					for i := range w {
 						w[i] = string(rune('a' + r.Intn(vocab)))
 						if r.Intn(10) == 0 {
-							w[i] = []string{"é", "漢", "a\xffb", "x.", "q\xef\xbf\xbdr", "\xef\xbf\xbd", "—", "x…", "“a”", "§"}[r.Intn(10)]
+							w[i] = []string{"é", "漢", "a\xffb", "x.", "q\xef\xbf\xbdr", "\xef\xbf\xbd", "—", "x…", "“a”", "§", "libéré", "naïve", "漢字x"}[r.Intn(13)]
 						}
 					}
 					return strings.Join(w, sep)
